@@ -253,6 +253,7 @@ static int cur_out = -1;                /* connected sink, -1 none */
 static bool need_def[ENV_NSINKS];       /* the sink must see (and accept) a definition before its next buffer */
 static bool rejecting[ENV_NSINKS];      /* the sink's last answer to a definition was a refusal */
 static unsigned delivered;              /* buffers seen by the sinks so far */
+static int m_state;                     /* model of the negotiation with the current output: 0 not presented, 1 accepted, 2 refused */
 
 /* ---- online monitors, called from the sinks (see pipe_env.h hooks) ---- */
 static void env_on_sink_flowdef(int sink, bool accepted, struct uref *flow_def)
@@ -339,6 +340,7 @@ static void do_set_output(int which)
 #else
     VASSERT(ubase_check(err), "set_output succeeds");
     cur_out = which;
+    m_state = 0;
     if (which >= 0)
         need_def[which] = true;     /* a newly connected output must be told the flow definition */
     struct upipe *g = NULL;
@@ -369,17 +371,21 @@ int main(void)
                     VASSERT(!ubase_check(err), "a flow definition of the wrong kind is refused");
 #endif
                     if (ubase_check(err)) {     /* type-agnostic pipes accept anything */
-                        if (!have_def || cur_def != 2)
+                        if (!have_def || cur_def != 2) {
+                            m_state = 0;
                             for (int s = 0; s < ENV_NSINKS; s++)
                                 need_def[s] = true;
+                        }
                         have_def = true;
                         cur_def = 2;
                     }
                 } else {
                     VASSERT(ubase_check(err), "a flow definition of the expected kind is accepted");
-                    if (!have_def || cur_def != ops[k])     /* setting an identical definition again is not a change */
+                    if (!have_def || cur_def != ops[k]) {   /* setting an identical definition again is not a change */
+                        m_state = 0;
                         for (int s = 0; s < ENV_NSINKS; s++)
                             need_def[s] = true;             /* every output must be told about the change */
+                    }
                     have_def = true;
                     cur_def = ops[k];
                 }
@@ -392,10 +398,40 @@ int main(void)
                 VASSERT(n_sent < MAXIN, "harness capacity: inputs");
                 for (int i = 0; i < NBYTES; i++)
                     sent[n_sent][i] = nd_u8();
-                struct uref *u = env_block_uref(sent[n_sent], NBYTES);
+                struct uref *u;
+#ifdef SEGMENTED    /* the payload as two chained segments (SEGMENTED octets + the rest) */
+                u = env_block_uref(sent[n_sent], SEGMENTED);
+                {
+                    struct uref *t = env_block_uref(&sent[n_sent][SEGMENTED], NBYTES - SEGMENTED);
+                    struct ubuf *tail = uref_detach_ubuf(t);
+                    uref_free(t);
+                    VASSERT(ubase_check(uref_block_append(u, tail)), "harness: segmented buffer built");
+                }
+#else
+                u = env_block_uref(sent[n_sent], NBYTES);
+#endif
                 sent_uref[n_sent] = u;
                 n_sent++;
+                unsigned before = 0;
+                for (int s = 0; s < ENV_NSINKS; s++)
+                    before += env_sinks[s].n_in;
                 upipe_input(P, u, NULL);
+#if PIPE == P_IDEM || PIPE == P_SKIP || PIPE == P_SETATTR || PIPE == P_SETFLOWDEF || PIPE == P_PROBE_UREF || PIPE == P_DELAY || PIPE == P_HTONS || PIPE == P_HELPER
+                /* one-to-one pipes: with an output that accepts the current definition, one input gives one output, at once */
+                {
+                    unsigned after = 0;
+                    for (int s = 0; s < ENV_NSINKS; s++)
+                        after += env_sinks[s].n_in;
+                    /* reference model of the negotiation: a definition not yet presented to this output is presented now
+                     * and accepted or refused; once refused nothing is delivered until the definition or the output changes */
+                    if (cur_out >= 0 && have_def && m_state == 0)
+                        m_state = env_sinks[cur_out].accept ? 1 : 2;
+                    if (cur_out >= 0 && have_def && m_state == 1)
+                        VASSERT(after == before + 1, "C05: a one-to-one pipe emits one output per input (nothing is lost)");
+                    else
+                        VASSERT(after == before, "C05: nothing is delivered without a connected output that accepted the flow definition");
+                }
+#endif
                 break;
             }
             case 7:
@@ -405,9 +441,11 @@ int main(void)
 #ifdef HAS_REBUILD
             case 10:        /* the pipe rebuilds (amends) its output flow definition */
                 hpipe_build_flow_def(P);
-                if (have_def)
+                if (have_def) {
+                    m_state = 0;
                     for (int s = 0; s < ENV_NSINKS; s++)
                         need_def[s] = true;     /* the definition changed: every output must be told */
+                }
                 break;
 #endif
 #ifdef HAS_HOLD
